@@ -17,7 +17,7 @@ treehash() {
       ! -name 'config.h' ! -name 'Makefile.in' ! -name 'config.h.in' -print0 | LC_ALL=C sort -z | xargs -0 sha256sum ) | sha256sum | cut -c1-24
 }
 H=$(treehash)
-OUT=$CACHE/$H/$VARIANT-r1
+OUT=$CACHE/$H/$VARIANT-r2
 if [ -f "$OUT/.ok" ]; then echo "$OUT"; exit 0; fi
 mkdir -p "$CACHE/$H"
 exec 9>"$CACHE/$H/.lock.$VARIANT"
@@ -53,6 +53,7 @@ ln -s libsnoopy.so.0.0.0 "$OUT.tmp/libsnoopy.so"
 cp "$SCR"/src/cli/action-enable.o "$SCR"/src/cli/action-disable.o "$SCR"/src/cli/action-status.o "$OUT.tmp/cli/"
 cp "$SCR"/src/cli/.libs/cli-subroutines.o "$OUT.tmp/cli/" 2>/dev/null || cp "$SCR"/src/cli/cli-subroutines.o "$OUT.tmp/cli/"
 cp "$SCR"/src/util/.libs/libsnoopy-utils.a "$OUT.tmp/cli/"
+if file "$SCR"/src/cli/snoopyctl | grep -q ELF; then cp "$SCR"/src/cli/snoopyctl "$OUT.tmp/cli/snoopyctl"; elif [ -f "$SCR"/src/cli/.libs/snoopyctl ]; then cp "$SCR"/src/cli/.libs/snoopyctl "$OUT.tmp/cli/snoopyctl"; fi
 cp "$SCR"/config.h "$OUT.tmp/config.h"
 grep -E 'PACKAGE_VERSION|SNOOPY_CONF_(MESSAGE_FORMAT|FILTER_CHAIN|SYSLOG|OUTPUT_DEFAULT|CONFIGFILE_PATH|LIBDIR)' "$SCR"/config.h > "$OUT.tmp/config.summary" || true
 touch "$OUT.tmp/.ok"
